@@ -20,6 +20,7 @@ let run mode file =
   let meta_written = ref false and fail_after_meta = ref false and fail_kind = ref "" in
   let d5 = ref false and unmapped = ref false in
   let last_dump = ref "" in
+  let last_reach = ref (-1) in
   let ic = open_in file in
   let cases = ref 0 and ops = ref 0 and mism = ref 0 and pfail = ref 0 and imgs = ref 0 in
   let kinds = Hashtbl.create 32 in
@@ -47,7 +48,7 @@ let run mode file =
     match split_ws line with
     | "case" :: id :: _ ->
       incr cases; case_id := id; opidx := 0; Buffer.clear optext; flags := []; dead := false;
-      s.committed <- empty_root; s.work <- None; Hashtbl.reset s.readers; s.stale <- false; d5 := false; unmapped := false
+      s.committed <- empty_root; s.work <- None; Hashtbl.reset s.readers; s.stale <- false; d5 := false; unmapped := false; last_reach := -1
     | "io" :: kind :: off :: _ :: rest ->
       if rest = ["FAIL"] then (fail_kind := kind; fail_after_meta := !meta_written)
       else if kind = "write" && int_of_string off < 2 * s.ps then meta_written := true
@@ -60,6 +61,7 @@ let run mode file =
       (match (if spec then !cur else (match !cur with
                                       | ("img" :: _) as c -> c
                                       | ("check" :: _) as c -> c
+                                      | ("bstats" :: _) as c -> c
                                       | ["dump"; "w"] -> (match res with "ok" :: d :: _ -> last_dump := d | ["ok"] -> last_dump := "t:" | _ -> ()); ["skip"]
                                       | "open" :: _ -> ["skip"]
                                       | _ -> ["skip"])) with
@@ -127,7 +129,15 @@ let run mode file =
           | None -> expect res_s "notx" "dump")
        | ["check"; r] when spec && tx_root r = None -> expect res_s "notx" "check"
        | ["check"; _] -> bump "check";
-         if mode <> "c12" then (match res with "ok" :: "0" :: _ -> () | "ok" :: n :: first :: _ -> propfail "tx_check_clean" (n ^ " problems, first: " ^ first) | _ -> mismatch "check" res_s "ok 0")
+         if mode <> "c12" then (match res with "ok" :: "0" :: _ -> () | "ok" :: n :: first :: _ -> propfail "tx_check_clean" (n ^ " problems, first: " ^ first) | ["notx"] -> () | _ -> mismatch "check" res_s "ok 0")
+       | ["bstats"; _] -> bump "bstats";
+         if acct then (match res with
+           | "ok" :: fields ->
+             let kv = kv_of fields in
+             let total = List.fold_left (fun a k -> a + int_of_string (get kv k)) 0 ["branch"; "branchov"; "leaf"; "leafov"] in
+             if !last_reach >= 0 && total <> !last_reach then
+               propfail "bucket_stats_pages" (Printf.sprintf "Bucket.Stats counts %d tree pages (%s), the decoder reaches %d" total (String.concat " " fields) !last_reach)
+           | _ -> ())
        | "stale" :: api :: _ -> bump ("stale-" ^ api); flag "err-ETxClosed";
          expect res_s (if s.stale then "ETxClosed" else "nostale") "stale"
        | "img" :: _ ->
@@ -148,6 +158,7 @@ let run mode file =
                end;
                if acct then begin
                (* C07: accounting *)
+               last_reach := List.length (Layout.page_ids v.Layout.v_pages);
                let mark = int_of_n v.Layout.v_meta.Layout.m_mark in
                ignore len;
                if int_of_string flen < mark * int_of_string ps then propfail "file_length" (Printf.sprintf "len=%s mark=%d" flen mark);
